@@ -52,9 +52,20 @@ def gen_case(rng, i, tier):
     if rng.random() < 0.25:
         # weight every operated axis by its own metric, in one of the accepted spellings
         call["metric_weighted"] = rng.choice(["dict-str", "dict-list"])
+    dtype = rng.choice(["float64"] * 8 + ["int64", "bool"])
+    if dtype != "float64":
+        # integer-typed data (counts, masks) only with integer-valued fills: numpy pads an integer array with the fill
+        # value cast to its dtype, and what a fractional fill should mean there is not part of the statement
+        def intfill(f):
+            return {k: intfill(v) for k, v in f.items()} if isinstance(f, dict) else (f if f is None or float(f).is_integer() else 3)
+
+        ctor["fill_value"] = intfill(ctor.get("fill_value"))
+        if "fill_value" in call:
+            call["fill_value"] = intfill(call["fill_value"])
+        call.pop("metric_weighted", None)
     return {
         "layout": layout, "ctor": ctor, "pos": pos, "dims": dims, "extra": extra,
-        "data": {"kind": "quarter", "seed": rng.getrandbits(31)}, "mseed": rng.getrandbits(31),
+        "data": {"kind": "quarter", "seed": rng.getrandbits(31), "dtype": dtype}, "mseed": rng.getrandbits(31),
         "call": call, "name": "v",
     }
 
@@ -70,7 +81,8 @@ def build(desc):
         names = []
         for p, d in a["pos"]:
             nm = f"m_{d}"
-            ds[nm] = ((d,), r.integers(1, 9, size=ds.sizes[d]).astype(float))
+            # non-uniform quarter-integer metrics: products with quarter-integer (or integer) data stay exact
+            ds[nm] = ((d,), r.integers(1, 33, size=ds.sizes[d]).astype(float) / 4)
             names.append(nm)
         mets[(a["name"],)] = names
     ctor = {k: v for k, v in desc["ctor"].items() if v is not None or k == "periodic"}
@@ -113,6 +125,11 @@ def run_case(ctx, desc):
         ctx.violation("grid-constructor-accepts", f"Grid(...) raised {type(e).__name__}: {e}")
         return
     da = c01.make_da(desc, ds)
+    dt = desc["data"].get("dtype", "float64")
+    if dt == "int64":
+        da = (da * 4).astype("int64")
+    elif dt == "bool":
+        da = da > 0
     d2 = dict(desc)
     opax, to_eff = c01.effective_to(d2)
     cm = gen.layout_coords(desc["layout"])
@@ -123,20 +140,20 @@ def run_case(ctx, desc):
         kw["metric_weighted"] = {a: (a if call["metric_weighted"] == "dict-str" else [a]) for a in opax}
     shifts = [(desc["pos"][a], to_eff[a], rules[a][0]) for a in opax]
     nontrivial = len(opax) > 1 or any(has_lead(desc["pos"][a], to_eff[a]) for a in opax)
-    ckey = ("model", shifts, weighted, len(desc["extra"]), "to" in call)
+    ckey = ("model", shifts, weighted, len(desc["extra"]), "to" in call, dt)
     ctx.judged(ckey, nontrivial)
     try:
         r = g.cumsum(da, call["axis"], **kw)
     except Exception as e:
         ctx.violation("well-posed-call-returns", f"cumsum raised {type(e).__name__}: {str(e)[:300]}")
         return
-    exp, exp_dims = model_cumsum(desc, da.values, da.dims, opax, to_eff, ds, weighted)
+    exp, exp_dims = model_cumsum(desc, da.values.astype(float), da.dims, opax, to_eff, ds, weighted)
     if ctx.evaluations % 50 == 1:
         ctx.sample({"case": desc, "expected_dims": exp_dims})
     if set(r.dims) != set(exp_dims) or r.transpose(*exp_dims).shape != exp.shape:
         ctx.violation("cumsum-dims", f"dims {r.dims} sizes {dict(r.sizes)}; expected {exp_dims} {exp.shape}")
         return
-    got = r.transpose(*exp_dims).values
+    got = np.asarray(r.transpose(*exp_dims).values, float)
     same = np.allclose(got, exp, rtol=1e-12, atol=0) if (weighted and len(opax) > 1) else np.array_equal(got, exp)
     if not same:
         w = tuple(np.argwhere(got != exp)[0])
@@ -168,7 +185,7 @@ def run_case(ctx, desc):
         try:
             c = g.cumsum(da, a, to="outer", boundary="fill", fill_value=0)
             back = g.diff(c, a, to="center")
-            if tuple(back.dims) != tuple(da.dims) or not np.array_equal(back.values, da.values):
+            if tuple(back.dims) != tuple(da.dims) or not np.array_equal(np.asarray(back.values, float), da.values.astype(float)):
                 ctx.violation("diff-inverts-cumsum", f"diff(cumsum(x,{a},to=outer,fill 0)) != x")
         except Exception as e:
             ctx.violation("diff-inverts-cumsum", f"raised {type(e).__name__}: {str(e)[:200]}")
